@@ -237,6 +237,9 @@ func c16R2(c *Ctx, rule string) {
 				c.RequireAt(r, rule, fmt.Sprintf("sendRPC:release-on-error#%d", i+1), ret, "every failed write releases the connection (never pooled in an unknown state)", func(v engine.View) bool { return v.Seen("released") })
 			}
 		}
+		for _, s := range c.P.CallsIn(fn, engine.Is("(*bufio.Writer).Flush")) {
+			c.RequireAt(r, rule, "sendRPC:flush-after-body", s.Instr, "the writer is flushed after the request body was encoded into it", func(v engine.View) bool { return v.Seen("type") && v.F("typeErr") && v.Seen("args") && v.F("argsErr") })
+		}
 		for _, s := range c.P.CallsIn(fn, func(n string) bool { return strings.HasSuffix(n, "codec.Encoder).Encode") }) {
 			c.RequireAt(r, rule, "sendRPC:type-byte-first", s.Instr, "the type byte is written before the request body", func(v engine.View) bool { return v.Seen("type") && v.F("typeErr") })
 		}
